@@ -15,6 +15,12 @@ PROP = "C05"
 
 # fixed probes of the known-finding classes (see known_findings.json)
 PROBES = {
+    "nested_subscript_order": '''
+@guppy
+def main() -> None:
+    xss = array(array(1, 2), array(3, 4))
+    result("v", xss[ti(1, 1)][ti(2, 0)])
+''',
     "chain_middle_effect": '''
 @guppy
 def main() -> None:
